@@ -82,6 +82,7 @@ def generate(tier, seed, work, stats):
             cases.append(dict(prods=prods, vpool="upper", tpool="ab", family="random"))
             if len(cases) % 5 == 0:
                 cases.append(dict(prods=prods, vpool="clash", tpool="ab", family="random-clash"))
+                cases.append(dict(prods=prods, vpool="dollar", tpool="ab", family="random-dollar-variable"))
     for c in cases:
         c["L"] = 4
     # P3: the calls the repository's own tests make, re-judged by the trace specification
